@@ -6,7 +6,7 @@
 From Coq Require Import String.
 From Coq Require Import NArith ZArith Bool List.
 Import ListNotations.
-From TV Require Import C02.Model C02.Proofs4 C03.Model C03.Proofs C03.Order.
+From TV Require Import C02.Model C02.Proofs4 C03.Model C03.Run C03.Proofs C03.Order C03.ProofsP4.
 
 (* The keep-alive decision, for every request, server setting and handler program: the connection
    stays open after the response exactly when _can_keep_alive holds (which is: the request allows
@@ -129,3 +129,30 @@ Example C03_buffered_http10 :
   g_hdr_err s = false /\ g_out_err s = false /\ g_early_fin s = false /\
   delimited q_get10ka s = true /\ c_closed s = false /\ sent_keep_alive s = true.
 Proof. exact buffered_10_example. Qed.
+
+(* The decision clauses of the checker.  [check3] (C03/Run.v) = [decide3] applied to booleans read off
+   the implementation's wire by the strict parser, plus the second-request clause.  For every
+   environment, request and handler program whose run is outside the two open known findings
+   ([outside_findings]: write_headers did not raise; the response was not finished before the request body
+   was read), [decide3] accepts the same booleans read off the model's structured output
+   (closed, Connection: close / Keep-Alive in the emitted block, self-delimiting = delimited and not
+   aborted, complete = header block emitted and not aborted): early finish => closed; open => allowed and
+   self-delimiting; allowed, self-delimiting, regular, body read => open; closed, HTTP/1.1, complete,
+   regular => close announced; keep-alive acknowledged, regular => open.
+   NOT covered: that the strict parser reads exactly these booleans off [wire_of] (header-block round trip),
+   and the second-request clause. *)
+Theorem C03_checker_decision_clauses_accept_model : forall e q p,
+  outside_findings q p (run e q p) = true ->
+  decide3 (finished_early_of q p) (request_allows q && negb (q_nka q))
+          (m_self_delim q (run e q p)) (m_complete (run e q p))
+          (regular_of e q p) (body_read_of q p) (is_v11 q)
+          (c_closed (run e q p)) (sent_close (run e q p)) (sent_keep_alive (run e q p)) = true.
+Proof. exact decision_clauses_hold. Qed.
+Print Assumptions C03_checker_decision_clauses_accept_model.
+
+Example C03_outside_findings_satisfiable :
+  outside_findings q_get10ka [Write (b "x"); Flush; Write (b "y")]
+                   (run env0 q_get10ka [Write (b "x"); Flush; Write (b "y")]) = true /\
+  outside_findings (mkReq POST V11 (Some (b "close")) None BodyCL false false WAfterBody) [Status 404; Write (b "nf")]
+                   (run env0 (mkReq POST V11 (Some (b "close")) None BodyCL false false WAfterBody) [Status 404; Write (b "nf")]) = true.
+Proof. exact outside_findings_examples. Qed.
